@@ -884,6 +884,9 @@ fn run_case(ctx: &Ctx, o: &Outer, pr: &Prepared, c: &Case) -> Result<String, (St
                 None => append_zeroed(tree, &lists[li]),
             };
             let Some(t) = mutated else { return Ok(String::new()) };
+            if std::env::var("VERIF_DEBUG").is_ok() {
+                eprintln!("DEBUG mutated list {:?}: {}", lists[li], t["proof"]["opening_proof"]["commit_phase_merkle_caps"]);
+            }
             match proof_from_json(&t) {
                 Ok(p) => {
                     owned = p;
@@ -940,7 +943,33 @@ fn run_case(ctx: &Ctx, o: &Outer, pr: &Prepared, c: &Case) -> Result<String, (St
         };
     }
     if c.honest == 0 {
-        return differential(o, p, c.arg, &c.what);
+        let r = differential(o, p, c.arg, &c.what);
+        if let (Src::List(ji, _, _), Err((site, _))) = (&c.src, &r) {
+            // A list mutation that the native verifier rejects on shape but that fits the (fixed-shape) targets
+            // of a padded circuit. If the mutated component ENTERS the transcript (a duplicated, non-zero cap or
+            // coefficient in a padding slot), the circuit derives other challenges than the prover used and can
+            // only accept when the 2 query indices of these tiny configurations coincide (probability
+            // 2^-(queries * lde bits) ~ 2^-10; the verdict floor of DESIGN 3.7 is 2^-40): observed, not judged.
+            // Same transcript (surplus zero caps / coefficients / ignored siblings) = deterministic: judged.
+            if site == "circuit-accepts-native-rejects" {
+                let pow_response = |q: &Proof| {
+                    guarded(|| {
+                        let mut ch = plonky2::iop::challenger::Challenger::<F, plonky2::hash::poseidon::PoseidonHash>::new();
+                        with_model_stark!(&o.def, S, q.get_challenges(&S::new(&o.def), &mut ch, None, None, false, &o.ssc, o.vparams.clone())).fri_challenges.fri_pow_response
+                    })
+                };
+                if let Ok(base) = proof_from_json(&pr.jsons[*ji].0) {
+                    if let (Ok(a), Ok(b)) = (pow_response(&base), pow_response(p)) {
+                        let bits = o.ssc.fri_config.num_query_rounds * (c.arg + o.ssc.fri_config.rate_bits);
+                        if a != b && bits < 40 {
+                            ctx.count("list_mutation_accepted_by_query_index_coincidence", 1);
+                            return Ok(format!("{}:transcript-differs:accepted-by-query-index-coincidence(p=2^-{bits}):not-judged", c.what));
+                        }
+                    }
+                }
+            }
+        }
+        return r;
     }
     // honest: N itself must hold
     match native(o, p) {
